@@ -135,6 +135,10 @@ class RtGen:
                             else:
                                 args.append(self.arg(lo, names))     # $gontainer, !value, !tagged of a tag carried only by earlier services
                         decs.append({"tag": t, "decorator": r.choice(["Decorate", "al.Wrap", "Wrap"]), "arguments": args})
+        if r.random() < self.w["decorators"] * 0.3:
+            # decorators on the tag "*" (legal for a decorator, no service can carry it: they must never be applied)
+            for _ in range(r.randint(1, 2)):
+                decs.append({"tag": "*", "decorator": r.choice(["Decorate", "Wrap"]), "arguments": [r.choice(LITS) for _ in range(r.randint(0, 2))]})
         if decs:
             # declaration order interleaves the tags (decorators of a service carrying several tags apply in declaration order)
             r.shuffle(decs)
